@@ -144,3 +144,9 @@ func MapW[K comparable, V any](m map[K]V, site string) map[K]V {
 	W(p, site)
 	return m
 }
+
+func fmtKey(k any) string { return fmt.Sprint(k) }
+
+func sortInts(idx []int, less func(a, b int) bool) {
+	sort.SliceStable(idx, func(i, j int) bool { return less(idx[i], idx[j]) })
+}
